@@ -61,6 +61,7 @@ type c04Target struct {
 }
 
 type c04Cmd struct {
+	Op  string   `json:"op"` // "weight" (default), "add" (Sel = tags, W = fixed weight of the new target), "del"
 	Svc string   `json:"svc"`
 	Sel []string `json:"sel"`
 	W   int64    `json:"w"`
@@ -118,14 +119,37 @@ func c04Script(c *c04Case, base int) string {
 		}
 		b.WriteString("\n")
 	}
+	added := len(c.Adds)
 	for _, w := range c.Cmds {
-		b.WriteString("route weight ")
-		if w.Svc != "" {
-			b.WriteString(w.Svc + " ")
-		}
-		fmt.Fprintf(&b, "%s weight %s", c.Src, c04Weight(w.W, c.Unit))
-		if len(w.Sel) > 0 {
-			fmt.Fprintf(&b, " tags \"%s\"", c04Tags(w.Sel))
+		switch w.Op {
+		case "add":
+			fmt.Fprintf(&b, "route add %s %s %s://10.0.%d.%d:%d/", w.Svc, c.Src, scheme, base, added+1, 8000+added)
+			added++
+			if w.W != 0 {
+				fmt.Fprintf(&b, " weight %s", c04Weight(w.W, c.Unit))
+			}
+			if len(w.Sel) > 0 {
+				fmt.Fprintf(&b, " tags \"%s\"", c04Tags(w.Sel))
+			}
+		case "del":
+			b.WriteString("route del")
+			if w.Svc != "" {
+				b.WriteString(" " + w.Svc)
+			}
+			if len(w.Sel) > 0 {
+				fmt.Fprintf(&b, " tags \"%s\"", c04Tags(w.Sel)) // (not scoped to the route: single-route tables only)
+			} else {
+				b.WriteString(" " + c.Src)
+			}
+		default:
+			b.WriteString("route weight ")
+			if w.Svc != "" {
+				b.WriteString(w.Svc + " ")
+			}
+			fmt.Fprintf(&b, "%s weight %s", c.Src, c04Weight(w.W, c.Unit))
+			if len(w.Sel) > 0 {
+				fmt.Fprintf(&b, " tags \"%s\"", c04Tags(w.Sel))
+			}
 		}
 		b.WriteString("\n")
 	}
@@ -153,7 +177,7 @@ var c04RndMu sync.Mutex
 
 type c04Stats struct {
 	cases, weights, cycles, picks, rndPicks, nontrivial, viaCmd, resets, multi, multiPicks int64
-	bigProbes, bigSkipped                                                                 int64
+	bigProbes, bigSkipped, histories                                                      int64
 }
 
 type c04Failer func(clause, picker, format string, a ...any)
@@ -169,7 +193,7 @@ type c04Route struct {
 
 // c04Static checks weights and ring of the route built for c and returns the handle for picking.
 func c04Static(tbl Table, c *c04Case, cache *GlobCache, st *c04Stats, fail c04Failer) *c04Route {
-	n := len(c.Adds)
+	n := len(c.Fk)
 	host, path := c04Split(c.Src)
 	var r *Route
 	for _, x := range tbl[host] {
@@ -289,21 +313,34 @@ func c04Cycles(rt *c04Route, seq []int, window int, c *c04Case, clause string, f
 }
 
 func c04Valid(c *c04Case) bool {
-	n := len(c.Adds)
-	return n > 0 && len(c.Fk) == n && len(c.Ew) == n && len(c.Lo) == n && len(c.Hi) == n && c.Unit > 0
+	n := len(c.Fk) // the targets the route has after the whole history
+	return n > 0 && len(c.Adds) > 0 && len(c.Ew) == n && len(c.Lo) == n && len(c.Hi) == n && c.Unit > 0
+}
+
+// c04History: does the script contain add / del commands after the first adds?
+func c04History(c *c04Case) bool {
+	for _, w := range c.Cmds {
+		if w.Op == "add" || w.Op == "del" {
+			return true
+		}
+	}
+	return false
 }
 
 func c04Run(c *c04Case, doPicks bool, cache *GlobCache, st *c04Stats) {
 	via := "add"
 	if len(c.Cmds) > 0 {
 		via = "weight-cmd"
-		if c.Cmds[len(c.Cmds)-1].W <= 0 {
+		if last := c.Cmds[len(c.Cmds)-1]; last.W <= 0 && last.Op != "add" && last.Op != "del" {
 			via = "weight-cmd-reset-last"
+		}
+		if c04History(c) {
+			via = "history"
 		}
 	}
 	fail := func(clause, pk, format string, a ...any) {
 		cc := *c
-		verifx.Fail(cc, map[string]any{"clause": clause, "via": via, "picker": pk, "targets": len(c.Adds)},
+		verifx.Fail(cc, map[string]any{"clause": clause, "via": via, "picker": pk, "targets": len(c.Fk)},
 			"%s\nscript:\n%s", fmt.Sprintf(format, a...), c04Script(c, 0))
 	}
 	if !c04Valid(c) {
@@ -324,7 +361,7 @@ func c04Run(c *c04Case, doPicks bool, cache *GlobCache, st *c04Stats) {
 	if rt == nil || !doPicks {
 		return
 	}
-	n, u := len(c.Adds), rt.u
+	n, u := len(c.Fk), rt.u
 	rr, rnd := Picker["rr"], Picker["rnd"]
 	// ---- round robin: two full cycles from an arbitrary cursor position
 	for j := 0; j < c.Warmup%u; j++ {
@@ -461,7 +498,7 @@ func TestVerifC04(t *testing.T) {
 			cache := NewGlobCache(100)
 			for j := range jobs {
 				c := j.c
-				always := len(c.Adds) <= 3 && len(c.Cmds) == 0
+				always := len(c.Fk) <= 3 && len(c.Cmds) == 0
 				c04Run(c, always || (j.n+seed)%pickEvery == 0, cache, &st)
 			}
 		}()
@@ -482,13 +519,16 @@ func TestVerifC04(t *testing.T) {
 		for _, k := range c.Fk {
 			fixed = fixed || k > 0
 		}
-		if len(c.Adds) >= 2 && fixed {
+		if len(c.Fk) >= 2 && fixed {
 			st.nontrivial++
 		}
 		if len(c.Cmds) > 0 {
 			st.viaCmd++
-			if c.Cmds[len(c.Cmds)-1].W <= 0 {
+			if last := c.Cmds[len(c.Cmds)-1]; last.W <= 0 && last.Op != "add" && last.Op != "del" {
 				st.resets++
+			}
+			if c04History(&c) {
+				st.histories++
 			}
 		}
 		if c.Src == "" { // not a replay: choose the spelling and the cursor position by seed
@@ -508,7 +548,7 @@ func TestVerifC04(t *testing.T) {
 		t.Fatal(err)
 	}
 	verifx.Summary(map[string]any{"cases": n, "weights": st.weights, "cycles": st.cycles, "picks": st.picks, "rnd_picks": st.rndPicks,
-		"distinct_nontrivial": st.nontrivial, "via_weight_cmd": st.viaCmd, "reset_last": st.resets, "samples": samples,
+		"distinct_nontrivial": st.nontrivial, "via_weight_cmd": st.viaCmd, "reset_last": st.resets, "histories": st.histories, "samples": samples,
 		"large_count_probes": st.bigProbes, "large_count_skipped": st.bigSkipped})
 }
 
@@ -621,7 +661,13 @@ func TestVerifC04Multi(t *testing.T) {
 			return fmt.Errorf("bad case: %v", err)
 		}
 		// the pool: small vectors (rings of 1..4 and of ~10 000 slots), all kinds of scripts
-		if c04Valid(&c) && len(c.Adds) <= 3 {
+		scoped := true
+		for _, w := range c.Cmds {
+			if w.Op == "del" && len(w.Sel) > 0 {
+				scoped = false // `route del ... tags` is not scoped to one route
+			}
+		}
+		if c04Valid(&c) && len(c.Fk) <= 3 && scoped {
 			pool = append(pool, c)
 		}
 		return nil
@@ -689,7 +735,7 @@ func TestVerifC04Multi(t *testing.T) {
 		if len(samples) < 3 && n%97 == 13 {
 			var srcs []string
 			for i := range m.Routes {
-				srcs = append(srcs, fmt.Sprintf("%s(%d targets)", m.Routes[i].Src, len(m.Routes[i].Adds)))
+				srcs = append(srcs, fmt.Sprintf("%s(%d targets)", m.Routes[i].Src, len(m.Routes[i].Fk)))
 			}
 			samples = append(samples, fmt.Sprintf("routes %v, lookups interleaved as %v repeated", srcs, s.Sched))
 		}
